@@ -133,9 +133,9 @@ INFO = {
         "trusted": ["Polynomial<BigRational> / Vec<Vec<BigRational>> / Vec<Vec<Vec<BigInt>>> identified with List Rat / List (List Rat) / List (List (List Int))",
                     "an order is passed as its stored basis and rebuilt with Order::from_basis (the field is private); the oracle applies when that basis is in stored form, which C15 checks to be a fixed point of from_basis",
                     "the table is read back through MultTable::mul on unit vectors (cross-checked against its Debug rendering on every case)"],
-        "gaps": ["norm of g(theta) = Res(f, g) / lc(f)^deg g is not a theorem (certified on every explored case by Spec.Field through the Sylvester determinant); trace/norm are stated for the matrix of multiplication-by-a in the order basis (regular_is_mult_matrix), not as basis-free LinearMap.trace/det"],
+        "gaps": ["trace/norm are stated for the matrix of multiplication-by-a in the order basis (regular_is_mult_matrix) and linked to Algebra.norm / the resultant; no basis-free LinearMap.trace statement"],
         "assumptions": ["f canonical of degree >= 1, operands reduced (canonical, degree < n); for the table clauses: the lattice is closed under multiplication and contains 1 (w_0 = 1), dimension = degree of f; inv: the multiplication map of a is invertible (a non-zero in a field)"],
-        "level_text": "Theorems for every f of degree n >= 1 (any non-zero leading coefficient) about the Lean model of algebraic.rs, order.rs (get_mult_table) and mult_table.rs: the product in Q[x]/(f) is the remainder of the polynomial product, ring laws, exponent laws; for every non-singular basis matrix: get_mult_table succeeds exactly when the lattice is closed under multiplication (else the integrality assertion fires) and its entries are the coordinates of the products of basis vectors; MultTable::mul agrees with the quotient-ring product on coordinate vectors; `regular t a` is the matrix of multiplication by a; trace and norm are its trace and determinant (exact integers), trace additive, norm multiplicative; inv returns (b, |norm a|) with a*b = |norm a| whenever norm a != 0 and w_0 = 1 (norm != 0 for every non-zero a when f is irreducible). Model tied to the code by differential testing; outputs also decided by independent oracles.",
+        "level_text": "Theorems for every f of degree n >= 1 (any non-zero leading coefficient) about the Lean model of algebraic.rs, order.rs (get_mult_table) and mult_table.rs: the product in Q[x]/(f) is the remainder of the polynomial product, ring laws, exponent laws; for every non-singular basis matrix: get_mult_table succeeds exactly when the lattice is closed under multiplication (else the integrality assertion fires) and its entries are the coordinates of the products of basis vectors; MultTable::mul agrees with the quotient-ring product on coordinate vectors; `regular t a` is the matrix of multiplication by a; trace and norm are its trace and determinant (exact integers), trace additive, norm multiplicative; inv returns (b, |norm a|) with a*b = |norm a| whenever norm a != 0 and w_0 = 1 (norm != 0 for every non-zero a when f is irreducible); norm(g(theta)) * lc(f)^deg g = Res(f, g) (Mathlib's resultant; general order basis over Q, power basis over Z). Model tied to the code by differential testing; outputs also decided by independent oracles.",
         "level_note": "Trusted: Lean kernel + 3 standard axioms; Mathlib polynomials; BigInt/BigRational identified with Int/Rat; correspondence generator coverage. Partial: table clauses certified per explored case, not proved.",
     },
     "C15": {
@@ -154,10 +154,9 @@ INFO = {
         "rulefn": _field_rule,
         "trusted": ["irreducibility of the generated f is guaranteed by the harness (irreducible modulo a small prime / known family), not re-checked by the oracle (which requires f primitive, squarefree, degree >= 1)",
                     "closed-form field discriminants (quadratic, pure cubic, cyclotomic, biquadratic) computed in the harness"],
-        "gaps": ["closure under multiplication, containment of the starting order, disc(result) = disc(start)/index^2 and p-maximality at every p with p^2 | disc (Pohst-Zassenhaus) are not proved: certified on every explored case by Spec.MaxOrder with two independent maximality criteria (radical by Frobenius kernel + injectivity of O/pO -> End(I_p/pI_p) over F_p; and, for small p^n, the definition)",
-                 "termination of the Round 2 loop is not proved"],
+        "gaps": ["closure under multiplication and p-maximality at every p with p^2 | disc (Pohst-Zassenhaus) are not proved: certified on every explored case by Spec.MaxOrder with two independent maximality criteria (radical by Frobenius kernel + injectivity of O/pO -> End(I_p/pI_p) over F_p; and, for small p^n, the definition); invariance of the discriminant under change of generator is certified per case", "termination of the Round 2 loop is not proved (theorems are about runs that return)"],
         "assumptions": ["f irreducible (squarefree) of degree >= 1"],
-        "level_text": "Theorems: the primes visited are exactly the prime factors of the starting discriminant (trial division proved correct), stored orders are canonical (HNF uniqueness), non-squarefree input is refused. The property's conclusion (maximal order) is certified per explored case by an independent oracle; the model of Round 2 (multiplication table mod p and p^2, Frobenius power, HNF kernel, U_p, new order) is compared textually with the implementation.",
+        "level_text": "Theorems about the Lean model of integral_basis/mod.rs and round2.rs for every f, for runs that return: the primes visited are exactly the primes whose square divides disc of the starting order; every Round 2 step returns a stored (canonical) non-singular order CONTAINING its argument with index p^howmany; the result O of find_integral_basis contains the starting order Z[theta] meet Z[1/theta] and contains 1, the index (O : start) = i >= 1 has i^2 | disc(start) with every prime factor of i having its square divide disc(start), disc(O) is computed and disc(start) = i^2 * disc(O) — and these are exactly the two numbers the CLI prints. Closure under multiplication and p-maximality are certified per explored case by independent oracles; per-step correspondence through a feature-guarded wrapper.",
         "level_note": "Trusted: Lean kernel + 3 standard axioms; correspondence coverage. Partial: maximality and ring closure are certified per explored case, not proved.",
     },
     "C16": {
@@ -175,9 +174,9 @@ INFO = {
         "rule": "decompose on the fields of C16 (incl. fields with non-trivial index so that primes dividing the index occur and must be refused) for all primes <= 60 (thorough 200) and three primes beyond 2^64; ramified, inert, split and mixed types; random history of factorize_mod_p captured and replayed; the CLI (to_find = prime-decomposition) as a process. Non-trivial: matrix arguments of dimension >= 2.",
         "rulefn": _field_rule,
         "trusted": ["hooked RNG + Lean draw decoder", "primality of p beyond 2^64 from a fixed list; irreducibility over such p by Rabin's test alone"],
-        "gaps": ["Kummer-Dedekind: P_i pairwise distinct primes above p, norm p^f_i with f_i = deg g_i, prod P_i^e_i = (p), sum e_i f_i = n: certified on every explored case (recovery of g_i from P_i by linear algebra over F_p, O/P_i = F_p[x]/(g_i), irreducibility of g_i, exact spec-side ideal product)"],
+        "gaps": ["Kummer-Dedekind proper is not proved: primality and pairwise distinctness of the P_i, norm p^f_i, prod P_i^e_i = (p): certified on every explored case by Spec.Ideal (recovery of g_i from P_i by linear algebra over F_p, O/P_i = F_p[x]/(g_i), exact spec-side ideal product); totality of decompose (no panic on legal input) is not a theorem"],
         "assumptions": ["monic irreducible f, maximal order, p prime"],
-        "level_text": "Theorems: the refusal guard (p dividing the index gives an explicit panic, never a decomposition) and the machine-word clause. The decomposition itself is certified per explored case by an independent oracle; the model is compared textually with the implementation on the captured random history.",
+        "level_text": "Theorems about the Lean model of prime_decomp/simple.rs for every monic f, every stream of draws and runs that return: the routine refuses (explicit panic) when p divides the index and the guard passed otherwise; the result has one pair per factor of f mod p returned by factorize_mod_p (fully verified in C08: monic, irreducible, distinct) with the same exponents, sum e_i * deg g_i = deg f, e_i >= 1; each P_i = (g_i(theta)) + (p) as a lattice (coordinates of g_i(theta) obtained by solving against the integral basis), is an O-ideal containing p*O, and its intersection with Z is pZ exactly when P_i is not the unit ideal (cap_z = p or 1); machine-word copy clause. Model tied to the code by replaying the captured random history; every output decided by an independent oracle; process-level CLI cases.",
         "level_note": "Trusted: Lean kernel + 3 standard axioms; RNG hook/decoder; correspondence coverage. Partial: Kummer-Dedekind is certified per explored case, not proved.",
     },
     "C07": {
@@ -290,10 +289,10 @@ INFO = {
         "rulefn": _c13_rule,
         "trusted": ["hooked RNG (feature verif-hooks) and the Lean decoding of num-bigint 0.4.4's gen_biguint_below (checked by the correspondence itself: 20 decoded bases per run)",
                     "reference classification: trial division below 2^32, 12-base deterministic Miller-Rabin below 2^64 (Sorenson-Webster), construction hints above (Mersenne primes, products)"],
-        "gaps": ["the 4^-20 error bound (Rabin-Monier: at most (n-1)/4 strong liars) is not proved; covered by exhaustive liar counting on the model for odd n below the bound and by the acceptance-needs-20-liars check on every accepted composite; these are tests"],
+        "gaps": ["no probability measure over byte streams is formalised: 'probability at most 4^-20' is the counting statement (at most ((n-1)/4)^20 of the (n-1)^20 base vectors are accepted) together with two theorems: the verdict on a stream is the verdict on the 20 decoded bases, and every base in [1,n-1] is decoded from the same number of chunks (the decoder is balanced); the step from 'independent uniform chunks with rejection' to 'independent uniform bases' is informal"],
         "assumptions": [],
-        "level_text": "Theorem for every prime n and every sequence of RNG outputs: the model of is_prime never answers false (one-sided error), plus n <= 1 and even n are rejected and modpow is modular exponentiation; the random history is an explicit argument of the model so 'whatever is drawn' is an ordinary universal quantifier. Model tied to prime.rs by replaying the captured RNG chunks of every run; implementation answers checked against deterministic references. The probabilistic bound is tested, not proved.",
-        "level_note": "Trusted: Lean kernel + 3 standard axioms; Mathlib ZMod/Fermat; RNG hook + decoder; correspondence generator coverage. Partial: the 4^-20 bound is not a theorem (liar counts are exhaustive tests below a bound).",
+        "level_text": "Theorems about the Lean model of prime.rs, the random history being an explicit argument: n <= 1 and even n > 2 rejected; every prime accepted on every stream (one-sided error); one round = the textbook strong-probable-prime condition; the Rabin-Monier bound in full: for EVERY odd composite n at most (n-1)/4 of the bases in [1, n-1] pass a round (tight at n = 9), hence at most ((n-1)/4)^20 of the (n-1)^20 vectors of 20 bases are accepted, i.e. error at most 4^-20 under independent uniform bases, for every composite n; the verdict of is_prime on a stream equals the verdict on the 20 bases decoded from it, the decoded bases lie in [1, n-1], and each base has the same number of chunk preimages (uniformity of gen_bigint_range as modelled). Model tied to prime.rs by replaying the captured RNG chunks of every run; implementation answers checked against deterministic references.",
+        "level_note": "Trusted: Lean kernel + 3 standard axioms; Mathlib ZMod/group theory; RNG hook + decoder (checked by the correspondence: 20 decoded bases per run); correspondence generator coverage.",
     },
     "C02": {
         "rule": _HNF_RULE,
